@@ -68,6 +68,40 @@ def purge_frame_battery(repo):
             if run['exit'] not in (0, None) or 'Traceback' in run['stderr']:
                 problems.append('%s %s: exit %r stderr %s' % (
                     tool, args, run['exit'], run['stderr'][-300:]))
+    # a trash directory spelled through a symlink followed by '..': the
+    # lexically normalised path names an unrelated directory, whose files/
+    # must not be touched
+    for tool, args in (('trash-empty', ['-f']), ('trash-rm', ['*'])):
+        with Sandbox(repo) as sb:
+            real = sb.path('real', 'deep', 'share', 'Trash')
+            sb.add_entry(real, 'doc', path='/orig/doc')
+            sb.add_entry(real, 'tree', path='/orig/tree', payload='dir')
+            os.makedirs(sb.path('data'))
+            os.symlink(sb.path('real', 'deep', 'inner'), sb.path('data', 'lnk'))
+            os.makedirs(sb.path('real', 'deep', 'inner'))
+            # data/lnk/../share/Trash  really is real/deep/share/Trash, but
+            # normalises (lexically) to data/share/Trash
+            foreign = sb.path('data', 'share', 'Trash')
+            os.makedirs(os.path.join(foreign, 'files', 'tree', 'sub'))
+            with open(os.path.join(foreign, 'files', 'doc'), 'w') as f:
+                f.write('foreign doc')
+            with open(os.path.join(foreign, 'files', 'tree', 'sub', 'f'), 'w') as f:
+                f.write('foreign tree')
+            spelled = sb.path('data', 'lnk', '..', 'share', 'Trash')
+            before = sb.snapshot()
+            if tool == 'trash-empty':
+                run = sb.run(tool, args + ['--trash-dir', spelled], env=_env(sb))
+            else:
+                e = _env(sb)
+                e['XDG_DATA_HOME'] = sb.path('data', 'lnk', '..', 'share')
+                run = sb.run(tool, args, env=e)
+            after = sb.snapshot()
+            for k in before:
+                if k.startswith('data/share/') and before[k] != after.get(k):
+                    problems.append('%s with the trash dir spelled %s: the unrelated '
+                                    '%s changed' % (tool, 'data/lnk/../share/Trash', k))
+            if 'Traceback' in run['stderr']:
+                problems.append('%s on link/../ spelling: traceback' % tool)
     return {'confirmed': bool(problems), 'problems': problems[:10],
             'runs': [r['cmd'] for r in runs]}
 
@@ -595,7 +629,9 @@ def put_xdev_battery(repo, mode='move'):
     every entry kind arrives in the home trash with bytes, tree, link targets,
     modes and mtimes intact and the targets untouched (C01, C09, C18);
     mode 'kill' kills the run before every mutating operation of the
-    copy+delete and checks C05's state predicate."""
+    copy+delete and checks C05's state predicate; mode 'restore' trashes
+    across devices, restores back across devices (round trip, C02) and kills
+    the restore before every mutating operation (C15)."""
     import subprocess, json
     inner = os.path.join(os.path.dirname(os.path.dirname(os.path.abspath(__file__))),
                          'pyvc', 'xdev_inner.py')
